@@ -36,7 +36,7 @@ def _subst(v, old, new):
     return v
 
 
-def expand_helpers(ctx, leaves, param, known, depth=3):
+def expand_helpers(ctx, leaves, param, known, depth=3, inline=None, hooks=None):
     """a leaf whose value calls another function of the module on the float parameter (an extracted ladder, an extracted arm) is replaced
     by the leaves of that function on the leaf's interval"""
     mod = ctx.src.mod(BULK)
@@ -59,7 +59,7 @@ def expand_helpers(ctx, leaves, param, known, depth=3):
             out.append(lf)
             continue
         env = {nm: val for nm, val in zip(names, target.args)}
-        eng = Engine(ctx, BULK, callee, param=param, env=env)
+        eng = Engine(ctx, BULK, callee, param=param, env=env, inline=inline, **(hooks or {}))
         st = State(dict(env), lf.iv, lf.state.facts, lf.state.effects)
         for a in callee.args.args[len(target.args):]:
             st.env[a.arg] = Opaque("default:" + a.arg, ())
@@ -207,9 +207,11 @@ class FloatAnalysis:
         if not self.fn.args.args:
             raise Unsupported(f"{q}: no parameter")
         self.param = self.fn.args.args[0].arg
-        eng = Engine(ctx, BULK, self.fn, param=self.param)
+        known = set(SCI) | {q}
+        follow = lambda name: name not in known          # noqa: E731  (the scientific helpers stay calls: C12-R2 decides them)
+        eng = Engine(ctx, BULK, self.fn, param=self.param, inline=follow)
         leaves = eng.run()
-        self.leaves = expand_helpers(ctx, leaves, self.param, set(SCI) | {q})
+        self.leaves = expand_helpers(ctx, leaves, self.param, known, inline=follow)
         self.cases = {}          # id(leaf) -> [(Reg, final models or None, inner models or None)]
         for lf in self.leaves:
             self.cases[id(lf)] = self._cases(lf) if lf.kind == "return" else []
@@ -406,8 +408,9 @@ class SciRun:
                 if isinstance(op, (ast.Gt, ast.LtE)):
                     return small == isinstance(op, ast.Gt)
             return None
-        eng = Engine(ctx, BULK, fn, param=param, length=length, cmp=cmp)
-        self.leaves = expand_helpers(ctx, eng.run(iv), param, set())
+        follow = lambda name: True                        # noqa: E731
+        eng = Engine(ctx, BULK, fn, param=param, length=length, cmp=cmp, inline=follow)
+        self.leaves = expand_helpers(ctx, eng.run(iv), param, set(), inline=follow, hooks={"length": length, "cmp": cmp})
 
     def width(self, v, carry):
         """characters of a string value in this regime (worst case: nothing to strip but what the regime guarantees) or None"""
